@@ -340,6 +340,11 @@ def gen_burst_then_seq(r):
         t = _avoid_ticks(t + r.choice([3, 10, 40]), I); ops.append((t, "c"))
     for j in range(k):
         t = _avoid_ticks(t + r.choice([5, 50]), I); ops.append((t, "d%d" % j))
+    # half of the histories: the newest idle session(s) die (peer went away) before the sequential requests; these
+    # must skip the dead ones and still reuse an older healthy session without dialling (seed C13-1)
+    if r.random() < 0.5:
+        for j in range(r.choice([1, 1, 2]) if k > 2 else 1):
+            t = _avoid_ticks(t + r.choice([5, 50]), I); ops.append((t, "x%d" % (k - 1 - j)))
     for j in range(r.randint(2, k + 1)):
         t = _avoid_ticks(t + r.choice([20, 300]), I); ops.append((t, "r"))
         for q in range(k + j):
